@@ -372,3 +372,24 @@ pub proof fn lemma_first_sep_bounds<T>(s: Seq<T>, sep: spec_fn(T) -> bool)
 {
     if s.len() > 0 && !sep(s[0]) { lemma_first_sep_bounds(s.skip(1), sep); }
 }
+
+// ---- more ASSUMED std contracts (slices / vectors of types whose PartialEq is structural and whose Ord is `ord_le`) ----
+pub open spec fn ord_lt<T>(a: T, b: T) -> bool { ord_le(a, b) && a != b }
+
+/// ASSUMED std contract: binary_search on a slice sorted by `Ord`
+pub assume_specification<T: Ord>[ <[T]>::binary_search ](s: &[T], x: &T) -> (r: Result<usize, usize>)
+    ensures
+        sorted_by_ord(s@) ==> match r {
+            Ok(i) => i < s@.len() && s@[i as int] == *x && s@.contains(*x),
+            Err(i) => i <= s@.len() && !s@.contains(*x)
+                && (forall|j: int| 0 <= j < i ==> ord_lt(#[trigger] s@[j], *x))
+                && (forall|j: int| i <= j < s@.len() ==> ord_lt(*x, #[trigger] s@[j])),
+        },
+;
+/// ASSUMED std contract: slice::contains for element types whose PartialEq is structural equality
+pub assume_specification<T: PartialEq>[ <[T]>::contains ](s: &[T], x: &T) -> (r: bool)
+    ensures r == s@.contains(*x),
+;
+pub assume_specification<T: Clone>[ <[T]>::to_vec ](s: &[T]) -> (r: Vec<T>)
+    ensures r@ == s@,
+;
